@@ -302,6 +302,12 @@ fn writes<F: Fam>(rep: &mut Report, c: &Case<F>, faults: bool, rng: &mut Rng) {
     let enc = &c.enc;
     let hl = header_len(enc.len());
     if !faults {
+        // the container is header + streamed body: the length field, read by an independent var-int reader, must
+        // describe exactly the streamed body
+        match frame_extent(enc) {
+            Some((h, rl)) if h == hl && h + rl == enc.len() => {}
+            other => rep.fail("large-header", c.what.clone(), format!("encode() wrote {} bytes whose fixed header reads as (header bytes, remaining length) = {:?}", enc.len(), other)),
+        }
         for gather in [false, true] {
             let mut script = vec![WItem::Accept(1), WItem::Accept(70_000), WItem::Pending, WItem::Accept(1 << 20), WItem::Accept(3)];
             if gather {
